@@ -46,6 +46,18 @@ CHECKS = {
         "collisions excepted (keys compared as piece sequences).",
    technique="Lean 4 proof (range_eq_cut, pieces_iff_selected_equal, parse_matches_cut_grammar, defragment_*) + correspondence run",
    design="6/C10"),
+ "C11": dict(
+   text="Status logic proved in Lean over a table regenerated on every run from the built code (the translator forks children that exit "
+        "with codes and that die of each fatal signal and records what preprocess::Wait() returns): a signalled child never yields "
+        "exit status 0, an exiting child's code is passed through exactly, success implies all threads finished and the child "
+        "exited 0. The quantifier over failing system calls and crash points is decided by fault enumeration on the real binaries: "
+        "every k-th read/write/fsync/close failing with ENOSPC/EIO/EPIPE (LD_PRELOAD shim), stdout on /dev/full, and a scripted "
+        "child ending with a code or a fatal signal after k answers for every k (incl. all of them) must give a non-zero status "
+        "without hanging, resp. exactly the child's code.",
+   note="Trusted: Lean kernel + standard axioms for the status table theorems; the per-syscall and per-crash-point part is an "
+        "enumeration over one small run per tool (not a proof); stderr faults out of scope.",
+   technique="Lean 4 proof over the generated Wait() table + fault enumeration (failing syscalls, dying children) on the binaries",
+   design="6/C11"),
  "C13": dict(
    text="Kernel-checked Lean refinement theorem: every history of insert-if-absent/lookup operations on non-zero keys, from the freshly "
         "constructed table, runs to completion (no probe diverges, 'table full' is never raised, through any number of in-place "
